@@ -40,7 +40,9 @@ Values(c) ==
       den == QDen(c.S, c.W, c.active, Max256)
       per == IF cap THEN <<MaxQN>> ELSE MulSmall(c.S, MaxQN, 256)            \* QNum = v * per
       Bk(k) == CeilDiv(MulSmall(den, k, 256), per)                           \* first value with quotient >= k
-      raw == {<<>>, <<1>>, Pred(T), T, Succ(T), Pred(Pred(T)), Pred(Max256), Half(<<>>, T)} \cup
+      raw == {<<>>, <<1>>, Pred(T), T, Succ(T), Pred(Pred(T)), Pred(Max256), Half(<<>>, T),
+              (* values a 256-fold scaling would carry across the decision points *)
+              Div(Max256, <<0, 1>>, 256), Div(Max256, <<128>>, 256), Div(T, <<0, 1>>, 256), Div(T, <<200>>, 256)} \cup
              UNION {{Bk(k), Pred(Bk(k)), Half(Bk(k), Bk(k + 1))} : k \in 1..(MaxQN - 1)}
   IN  {v \in raw : Lt(v, Max256)}
 
